@@ -50,6 +50,26 @@ Arguments Ok {A} x.
 Arguments Err {A}.
 Arguments Panic {A}.
 
+(* builderv1.ValidatorRegistration as the caller hands it to SignValidatorRegistration.  Its
+   Timestamp is a Go time.Time: an instant with nanosecond resolution, here the nanoseconds since
+   the Unix epoch (negative before 1970; the zero time.Time is -62135596800 s).  The location and
+   the monotonic reading of a time.Time take no part in Unix() and are not modelled (the harness
+   varies the location).  What is signed, sent on the wire and verified by relays is the
+   builder-specs ValidatorRegistrationV1, whose timestamp is a uint64 of SECONDS:
+   go-builder-client's HashTreeRoot / MarshalSSZ put uint64(Timestamp.Unix()), and Unix() rounds
+   DOWN (the sub-second part is dropped, never rounded to the nearest second). *)
+Record go_registration := GoRegistration {
+  gr_fee_recipient : N; gr_gas_limit : N; gr_time_ns : Z; gr_pubkey : N }.
+
+(* time.Time.Unix() *)
+Definition unix_seconds (t_ns : Z) : Z := (t_ns / 1000000000)%Z.
+(* the conversion uint64(int64) *)
+Definition to_uint64 (z : Z) : N := Z.to_N (z mod 18446744073709551616)%Z.
+
+(* the registration message (builder-specs) that a Go registration stands for *)
+Definition wire_registration (g : go_registration) : registration :=
+  Registration (gr_fee_recipient g) (gr_gas_limit g) (to_uint64 (unix_seconds (gr_time_ns g))) (gr_pubkey g).
+
 Inductive request :=
 | ReqAttestation (a : account) (d : att_data)
 | ReqAttestations (accs : list account) (slot : N) (idxs : list N) (bbr se sr te tr : N)
@@ -60,7 +80,7 @@ Inductive request :=
 | ReqAggregateAndProof (a : account) (slot root : N)
 | ReqSyncRoots (accs : list account) (epoch root : N)
 | ReqContributions (accs : list account) (cps : list contribution_and_proof)
-| ReqRegistration (a : account) (reg : option registration).  (* None: nil / unsupported version / nil V1 *)
+| ReqRegistration (a : account) (reg : option go_registration).  (* None: nil / unsupported version / nil V1 *)
 
 (* sigs[i] = v for a slice (an out-of-range index cannot occur where this is used; it is a no-op here) *)
 Fixpoint upd_nth {A} (i : nat) (v : A) (l : list A) : list A :=
@@ -323,7 +343,7 @@ Section Signer.
     end.
 
   (* SignValidatorRegistration *)
-  Definition sign_registration (a : account) (reg : option registration) : res sig :=
+  Definition sign_registration (a : account) (reg : option go_registration) : res sig :=
     match reg with
     | None => Err
     | Some r =>
@@ -332,7 +352,7 @@ Section Signer.
         | Some dt =>
             match p_genesis P dt with
             | None => Err
-            | Some domain => sign_one a (htr_registration H r) domain
+            | Some domain => sign_one a (htr_registration H (wire_registration r)) domain  (* registration.V1.HashTreeRoot() *)
             end
         end
     end.
@@ -538,7 +558,7 @@ Definition request_items (q : request) : list (account * message) :=
   | ReqAggregateAndProof a slot root => [(a, MAggregateAndProof slot root)]
   | ReqSyncRoots accs epoch root => map (fun a => (a, MSyncMessage epoch root)) accs
   | ReqContributions accs cps => map (fun '(a, cp) => (a, MContribution cp)) (combine accs cps)
-  | ReqRegistration a (Some r) => [(a, MRegistration r)]
+  | ReqRegistration a (Some r) => [(a, MRegistration (wire_registration r))]
   | ReqRegistration a None => []
   end.
 
